@@ -18,12 +18,13 @@ assert os.path.abspath(flodym.__file__).startswith(os.path.abspath(REPO) + os.se
 
 from .poly import Poly  # noqa: E402
 
-ALL_CANON = ["a", "b", "c", "d", "e"]
+ALL_CANON = ["a", "b", "c", "d", "e", "f"]   # (MC_Index names its sixth letter "k"; its vectors carry their own universe)
 PATTERNS = {
     "P222": [2, 2, 2], "P231": [2, 3, 1], "P122": [1, 2, 2], "P322": [3, 2, 2], "P22": [2, 2],
     "P2222": [2, 2, 2, 2], "P2132": [2, 1, 3, 2], "P333": [3, 3, 3], "P323": [3, 2, 3],
     "P233": [2, 3, 3], "P3": [3], "P32": [3, 2], "P23": [2, 3], "P33": [3, 3], "P52": [5, 2], "P25": [2, 5],
-    "P22222": [2, 2, 2, 2, 2], "P23232": [2, 3, 2, 3, 2],
+    "P22222": [2, 2, 2, 2, 2], "P23232": [2, 3, 2, 3, 2], "P72": [7, 2], "P27": [2, 7], "P272": [2, 7, 2],
+    "P222222": [2, 2, 2, 2, 2, 2],
 }
 
 
@@ -32,7 +33,9 @@ class Universe:
     (unique across dimensions so that tuple / single-item keys are unambiguous), unless
     `item_of` overrides it."""
 
-    def __init__(self, canon, lens, subs=None, item_of=None, dtype_of=None):
+    def __init__(self, canon, lens, subs=None, item_of=None, dtype_of=None, name_shift=0, reverse_items=False):
+        self.name_shift = name_shift      # dimension names are rotated against the letters: names are not tied to letters
+        self.reverse_items = reverse_items  # base dimensions list their items in reversed label order (same item SET, other order)
         self.canon = list(canon)
         self.lens = dict(zip(canon, lens))
         self.subs = dict(subs or {})  # letter -> (root, [labels])
@@ -51,10 +54,14 @@ class Universe:
     def labels(self, letter):
         if letter in self.subs:
             return list(self.subs[letter][1])
-        return list(range(1, self.lens[letter] + 1))
+        labs = list(range(1, self.lens[letter] + 1))
+        return labs[::-1] if self.reverse_items else labs
 
     def name(self, letter):
-        return ("sub_" if letter in self.subs else "dim_") + letter
+        if letter in self.subs:
+            return "sub_" + letter
+        i = self.canon.index(letter)
+        return "dim_" + self.canon[(i + self.name_shift) % len(self.canon)]
 
     def item(self, letter, label):
         return self.item_of(self.root(letter), label)
@@ -134,6 +141,8 @@ class Universe:
 
     def check_shape(self, arr, what="array"):
         v = arr.values
+        if len(arr.dims.letters) == 0 and not isinstance(v, np.ndarray):
+            return []      # a 0-dimensional array may hold a numpy scalar (shape ()) after an in-place ufunc
         if not isinstance(v, np.ndarray):
             return [f"{what}: values is {type(v).__name__}, not ndarray"]
         if tuple(v.shape) != tuple(d.len for d in arr.dims):
@@ -146,4 +155,6 @@ class Universe:
         for d in arr.dims:
             lab = t[self.canon.index(self.root(d.letter))]
             idx.append(d.items.index(self.item(d.letter, lab)))
+        if not idx and not isinstance(arr.values, np.ndarray):
+            return arr.values
         return arr.values[tuple(idx)]
